@@ -3,6 +3,7 @@ CONSTANTS
   MaxRestarts = 3
   MaxReq = 99
   Urls = {"a", "b", "c"}
+  DefinedChoices <- AllDefined
   JailChoices = {FALSE}
   Statuses = {200}
   KCover = 0
